@@ -48,13 +48,13 @@ PROPS = {
         "engines": [storm(sq=12, st=12), storm("venue", arg="C16:venue", sq=4, st=4)],
         "rule": "each evaluation is the structural predicate on one MarginfiAccount after one instruction or at one commit; distinct = (where, number of active positions, tag set, flags); the venue engine drives worlds with up to 10 pass-through banks of three kinds (Kamino, Solend, Drift) and saturates the integration cap (one account enters every venue bank in turn); the storm engine adds liquidations by fresh accounts (positions opened inside a liquidation next to held ones) and by callers that name a bank twice among the liquidator's observation accounts",
         "assumptions": COMMON_ASSUMPTIONS + ["integration positions of all three kinds (Kamino, Solend, Drift) are opened through the venue stand-ins and through liquidation"],
-        "floors": {"quick": {"ix_ok/Deposit": 500, "ix_ok/Borrow": 100, "ix_ok/KaminoDeposit": 200, "ix_ok/SolendDeposit": 100, "ix_ok/DriftDeposit": 100, "venue.cap_probes_saturated_at_8": 3, "C16.liquidation_opened_position_next_to_held_ones": 100, "C16.liquidations_by_holder_of_collateral_bank_only": 8}},
+        "floors": {"quick": {"C16.liquidations_by_debtor_of_collateral_bank": 4, "ix_ok/Deposit": 500, "ix_ok/Borrow": 100, "ix_ok/KaminoDeposit": 200, "ix_ok/SolendDeposit": 100, "ix_ok/DriftDeposit": 100, "venue.cap_probes_saturated_at_8": 3, "C16.liquidation_opened_position_next_to_held_ones": 100, "C16.liquidations_by_holder_of_collateral_bank_only": 8}},
     },
     "C17": {
-        "engines": [storm()],
-        "rule": "each evaluation is one successful deposit/borrow/withdraw judged against limits and deposits>=debt from post-state bytes, or one rejected up-to-limit deposit; distinct = (kind, limit class, grew, up-to-limit, share value != 1, utilisation bucket)",
+        "engines": [storm(sq=12, st=12), storm("venue", arg="C17:venue", sq=4, st=4)],
+        "rule": "each evaluation is one successful deposit (ordinary or through a Kamino / Solend / Drift pass-through instruction; a Drift limit is scaled to the nine-decimal booking unit) / borrow / withdraw judged against limits and deposits>=debt from post-state bytes, or one rejected up-to-limit deposit; the venue engine runs worlds whose pass-through banks carry caps small enough to be reached; distinct = (kind, limit class, grew, up-to-limit, share value != 1, utilisation bucket)",
         "assumptions": COMMON_ASSUMPTIONS + ["a successful deposit that deposited nothing is not judged against the deposit limit"],
-        "floors": {"quick": {"ix_ok/Deposit": 500, "ix_ok/Borrow": 100, "C17.up_to_limit_deposits_accepted": 50}},
+        "floors": {"quick": {"C17.venue_deposits_under_an_active_cap": 200, "ix_rejected/KaminoDeposit/6003": 5, "ix_ok/Deposit": 500, "ix_ok/Borrow": 100, "C17.up_to_limit_deposits_accepted": 50}},
     },
     "C04": {
         "engines": [storm("scen", sq=12, st=12), storm("venue", arg="C04:venue", sq=4, st=4)],
@@ -128,7 +128,7 @@ PROPS = {
         "engines": [storm("admin")],
         "rule": "each evaluation is one accepted configuration-writing instruction whose post-state is judged against the listed inequalities, e-mode leverage caps (caps read at acceptance time) and the killed-state rule; distinct = quantised (weights, tier, state) and (e-mode entries, liability weights) tuples",
         "assumptions": COMMON_ASSUMPTIONS + ["the initial-implies-maintenance consequence is implied by the checked inequalities (monotone valuation); it is additionally exercised by C04/C05 at equal prices"],
-        "floors": {"quick": {"pulse.health_signs_compared/maintenance": 100, "C13.accepted_config_writes/ConfigureBank": 500, "C13.accepted_config_writes/ConfigureBankEmode": 200, "C13.accepted_config_writes/CloneEmode": 100, "C13.accepted_config_writes/PropagateStakedSettings": 10}},
+        "floors": {"quick": {"scen.emode_overlap_borrowed_to_the_limit": 8, "pulse.health_signs_compared/maintenance": 100, "C13.accepted_config_writes/ConfigureBank": 500, "C13.accepted_config_writes/ConfigureBankEmode": 200, "C13.accepted_config_writes/CloneEmode": 100, "C13.accepted_config_writes/PropagateStakedSettings": 10}},
     },
     "C14": {
         "engines": [storm("matrix")],
@@ -140,6 +140,6 @@ PROPS = {
         "engines": [storm("admin")],
         "rule": "each evaluation is one fee collection (token deltas of the five accounts vs bucket reductions), one draw-down of a fee / insurance vault (signer rule), one emissions credit / payout (conservation, proportional bound, destination) or one commit-time emissions-vault cover check; distinct = (clamp class, bucket signs, fractional, transfer-fee) and emission event classes",
         "assumptions": COMMON_ASSUMPTIONS,
-        "floors": {"quick": {"C19.collections": 300, "C19.emission_payouts": 50, "C19.emission_lower_bounds_checked": 300, "C19.emission_lower_bounds_checked_borrow_side": 30, "C19.insurance_vault_drawdowns/WithdrawInsurance": 20}},
+        "floors": {"quick": {"admin.fees_destination_update_by_foreign_group_admin": 10, "C19.collections": 300, "C19.emission_payouts": 50, "C19.emission_lower_bounds_checked": 300, "C19.emission_lower_bounds_checked_borrow_side": 30, "C19.insurance_vault_drawdowns/WithdrawInsurance": 20}},
     },
 }
